@@ -204,14 +204,26 @@ def run_inproc(case, rec):
     try:
         r = Probe(path, prob, fields=fields, extra_fields=extra if extra_cfg in ("extra", "override") else ({} if extra_cfg == "noextra" else None), only_record_best_individuals=case["only_best"])
         check_disk("after-construction")
+        # the caller's dicts go on to configure something else: a recorder keeps the columns it was constructed with
+        for d in (fields, extra):
+            if isinstance(d, dict):
+                d["AddedAfterConstruction"] = lambda t, i, p: "late"
+        rec.count("configuration_dicts_changed_after_construction")
         if shared and fields is not None:
             # a second recorder configured from the SAME fields dict, with another extra column: each log has its own columns
             other = CSVSearchRecorder(path + ".other", prob, fields=fields, extra_fields={"OnlyInTheOther": lambda t, i, p: "o"}, only_record_best_individuals=False)
             other.csv_file.close()
             rec.count("recorders_sharing_a_fields_dict")
         tr = (SingleObjectiveProgressTracker if nobj == 1 else MultiObjectiveProgressTracker)(prob, SequentialEvaluator(), recorders=[r])
+        order = list(inds)
         for ind in inds:
             tr.evaluate([ind])
+        # survivors are registered again with every later generation (Population re-registers the elites): in record-all
+        # mode that is one more row each, in best-only mode it is no improvement
+        for j in range(0, len(inds), 3):
+            tr.evaluate([inds[j]])
+            order.append(inds[j])
+            rec.count("re_registrations")
         r.csv_file.close()
     except core.CaseTimeout:
         raise
@@ -221,17 +233,19 @@ def run_inproc(case, rec):
     if case["only_best"]:
         rec.count("only_best_runs")
         # only strict improvements (single objective): sequential model of best-so-far on the direction-aware value
-        if nobj == 1:
-            best = None
-            exp = []
-            for ind in inds:
-                v = table[id(ind.get_phenotype())][0]
-                v = -v if prob.minimize[0] else v
-                if best is None or v > best:
-                    exp.append(ind)
-                    best = v
-            if [id(x) for x in exp] != [id(x) for x in state["expected"]]:
-                rec.violation("csv:only-best-mode-records-wrong-individuals", dict(wit, recorded=len(state["expected"]), strict_improvements=len(exp)))
+        # (several objectives: a strict improvement of the aggregate the trackers rank by - the signed sum)
+        best = None
+        exp = []
+        mins = prob.minimize if isinstance(prob.minimize, list) else [prob.minimize] * nobj
+        for ind in order:
+            v = sum(-c if m else c for c, m in zip(table[id(ind.get_phenotype())][: max(1, nobj)], mins))
+            if best is None or v > best:
+                exp.append(ind)
+                best = v
+        if nobj > 1:
+            rec.count("only_best_runs_with_several_objectives")
+        if [id(x) for x in exp] != [id(x) for x in state["expected"]]:
+            rec.violation(f"csv:only-best-mode-records-wrong-individuals:{'single' if nobj == 1 else 'multi'}", dict(wit, recorded=len(state["expected"]), strict_improvements=len(exp)))
     data, _, rows = parse_disk(path)
     if len(rows) > 1:
         rec.distinct_add([wit, core.h(re.sub(r"^[0-9.e-]+,", "", data, flags=re.M))])
